@@ -1089,6 +1089,37 @@ def scen_fail_then_succeed(rng):
     return {'tree': [[g, 'dir']] if rng.random() < 0.3 else [], 'funcs': funcs, 'steps': steps}
 
 
+def scen_mode_switch(rng):
+    """the same output requested with one comparison mode in one build and with the other in the next (a hit on the same
+    record), then tampered with - a new modification time only, new bytes with the same size and time, new bytes - and
+    requested again: the mode of the request that vouched for it last decides, directly in the root function or below a
+    subbuild that is re-executed for the switch, with a reader in a third mode"""
+    out = rng.choice(PATHS2)
+    a, b = rng.choice([('H', 'M'), ('H', 'M'), ('M', 'H')])
+    nested = rng.random() < 0.5
+    body = [['if', ['arg', _e(0)], [_bf(out, 1, cmp_=a, catch=False)], [_bf(out, 1, cmp_=b, catch=False)]]]
+    if rng.random() < 0.4:
+        body.append(_q('read', out, rng.choice('MH')))
+    funcs = [
+        _fn('f0', [['if', ['arg', _e(0)], [_sb(2, arg=0)], [_sb(2, arg=1)]]] if nested else body),
+        _fn('f1', [['w', None, 4242 if rng.random() < 0.3 else None]]),
+        _fn('f2', body),
+    ]
+    funcs.append(_fn('rootfail', funcs[0]['stmts'] + [['raise', 99]]))
+    steps = [_build(arg=0), _build(arg=1)]
+    muts = 0
+    for i in range(rng.randint(1, 2)):
+        k = rng.choice(['touch', 'samemeta', 'write', 'touch', 'samemeta'])
+        muts += k == 'samemeta'
+        steps.append(['mut', k, out, None if k == 'samemeta' else 'm%d' % rng.randint(0, 9), None if k == 'samemeta' else 7500 + 10 * i + rng.randint(0, 5)])
+        steps.append(_build(arg=rng.choice([1, 1, 0]), root=rng.choice([0, 0, 0, 3])))
+    steps.append(_build(arg=1))
+    c = {'tree': [], 'funcs': funcs, 'steps': steps}
+    if muts:
+        c['no_spec'] = True
+    return c
+
+
 def scen_sibling_outputs(rng):
     """one cached subbuild (or build_file) with several outputs in the same new directory and below it; one of them -
     not necessarily the first - is tampered with between builds (content with the same size and mtime, or a new mtime,
@@ -1168,7 +1199,7 @@ def scen_deep_reuse(rng):
     return {'tree': [], 'funcs': funcs, 'steps': steps}
 
 
-SCENARIOS = [scen_deep_reuse, scen_read_after_caught_failure, scen_sibling_outputs, scen_fail_then_succeed, scen_reuse_inside_failing, scen_failed_target_becomes_dir, scen_funcname, scen_nested_failure, scen_swap, scen_stale_dir, scen_dups, scen_versions, scen_reads, scen_identity, scen_foreign_swap, scen_sibling_failure, scen_todir, scen_selfread, scen_file_becomes_parent, scen_olddir_becomes_target, scen_prefix_siblings, scen_overlay_order, scen_nested_reuse, scen_double_failure]
+SCENARIOS = [scen_mode_switch, scen_deep_reuse, scen_read_after_caught_failure, scen_sibling_outputs, scen_fail_then_succeed, scen_reuse_inside_failing, scen_failed_target_becomes_dir, scen_funcname, scen_nested_failure, scen_swap, scen_stale_dir, scen_dups, scen_versions, scen_reads, scen_identity, scen_foreign_swap, scen_sibling_failure, scen_todir, scen_selfread, scen_file_becomes_parent, scen_olddir_becomes_target, scen_prefix_siblings, scen_overlay_order, scen_nested_reuse, scen_double_failure]
 
 
 def gen_scenario_cases(seed, per_family, dirsize=4096, families=SCENARIOS):
